@@ -2,6 +2,7 @@ package compose
 
 import (
 	"context"
+	"errors"
 )
 
 // C09: a compiled runnable is safe for concurrent use; runs are isolated.
@@ -9,6 +10,7 @@ import (
 type c09State struct{ Acc int }
 
 var c09Concrete = false
+var c09ErrNode = errors.New("c09 node failure")
 
 // concrete, injective-enough node function and fold
 func c09F(key string, v, acc int) int { return (v*31+vKeyID(key))*17 + acc }
@@ -185,4 +187,111 @@ func VerifC09Options() {
 	}
 	c09Two(run, want, "per-call options and designated callbacks")
 	vassert(c10Count(evs, "h", "start", "A") == 2 && c10Count(evs, "h", "end", "A") == 2, "each run fires its own callbacks once")
+}
+
+// A workflow node fed only by static values (control dependency on START, no mapped input) that hands its input on:
+// every run gets its own value; what a caller does to its result is invisible to the other caller and to later runs.
+func VerifC09WorkflowStatic() {
+	ctx := context.Background()
+	vcfg("delaybound", 1+vtier())
+	vcfg("race", 1)
+	wf := NewWorkflow[map[string]any, map[string]any]()
+	wf.AddLambdaNode("s", InvokableLambda(func(ctx context.Context, in map[string]any) (map[string]any, error) {
+		vyield()
+		return in, nil
+	})).AddDependency(START).SetStaticValue(FieldPath{"k"}, 7)
+	wf.End().AddInput("s")
+	r, err := wf.Compile(ctx)
+	vassert(err == nil, "workflow with a static-values-only node compiles")
+	useStream := vchoose("stream", 2) == 1
+	run := func(idx int) (map[string]any, error) {
+		var out map[string]any
+		var e error
+		if useStream {
+			sr, e2 := r.Stream(ctx, map[string]any{"in": idx})
+			if e2 != nil {
+				return nil, e2
+			}
+			out, e = vDrainMap(sr)
+		} else {
+			out, e = r.Invoke(ctx, map[string]any{"in": idx})
+		}
+		if e == nil {
+			out["mine"] = idx // the caller owns its result
+		}
+		return out, e
+	}
+	var o2 map[string]any
+	var e2 error
+	go func() { o2, e2 = run(2) }()
+	o1, e1 := run(1)
+	vquiesce()
+	vassert(e1 == nil && e2 == nil, "both concurrent runs succeed")
+	vassert(len(o1) == 2 && o1["k"] == 7 && o1["mine"] == 1, "the first caller's result is its own")
+	vassert(len(o2) == 2 && o2["k"] == 7 && o2["mine"] == 2, "the second caller's result is its own")
+	o3, e3 := r.Invoke(ctx, map[string]any{"in": 3})
+	vassert(e3 == nil && len(o3) == 1 && o3["k"] == 7, "a later run returns what it would return alone: earlier callers' modifications are invisible")
+}
+
+// Failing runs are isolated as well: the error a run returns (step limit exhausted inside a nested graph, or a
+// failing nested node) is what the run would return alone, and it does not change when other runs fail later.
+func VerifC09ErrorIsolation() {
+	ctx := context.Background()
+	vcfg("delaybound", 1+vtier())
+	vcfg("race", 1)
+	kind := vchoose("failure", 2) // 0 step limit inside the nested graph, 1 failing nested node
+	sub := NewGraph[map[string]any, map[string]any]()
+	_ = sub.AddLambdaNode("n", InvokableLambda(func(ctx context.Context, in map[string]any) (map[string]any, error) {
+		vyield()
+		if kind == 1 {
+			return nil, c09ErrNode
+		}
+		return in, nil
+	}))
+	_ = sub.AddEdge(START, "n")
+	_ = sub.AddBranch("n", NewGraphBranch(func(ctx context.Context, in map[string]any) (string, error) { return "n", nil },
+		map[string]bool{"n": true, END: true}))
+	outer := NewGraph[map[string]any, map[string]any]()
+	_ = outer.AddGraphNode("sub", sub, WithGraphCompileOptions(WithMaxRunSteps(2)))
+	_ = outer.AddEdge(START, "sub")
+	_ = outer.AddEdge("sub", END)
+	r, err := outer.Compile(ctx)
+	vassert(err == nil, "graph compiles")
+	useStream := vchoose("stream", 2) == 1
+	run := func() error {
+		if useStream {
+			sr, e := r.Stream(ctx, map[string]any{"in": 1})
+			if e != nil {
+				return e
+			}
+			_, e = vDrainMap(sr)
+			return e
+		}
+		_, e := r.Invoke(ctx, map[string]any{"in": 1})
+		return e
+	}
+	var e2 error
+	s2 := ""
+	go func() {
+		e2 = run()
+		if e2 != nil {
+			s2 = e2.Error()
+		}
+	}()
+	e1 := run()
+	s1 := ""
+	if e1 != nil {
+		s1 = e1.Error()
+	}
+	vquiesce()
+	vassert(e1 != nil && e2 != nil, "both runs fail")
+	e3 := run()
+	vassert(e3 != nil, "a later run fails the same way")
+	vassert(s1 == e3.Error() && s2 == e3.Error(), "every failing run reports what it would report alone (same node path, nothing accumulated from other runs)")
+	vassert(e1.Error() == s1 && e2.Error() == s2, "an error already returned to a caller does not change when other runs fail later")
+	if kind == 0 {
+		vassert(errors.Is(e1, ErrExceedMaxSteps) && errors.Is(e2, ErrExceedMaxSteps), "the step-limit sentinel is matchable in every run")
+	} else {
+		vassert(errors.Is(e1, c09ErrNode) && errors.Is(e2, c09ErrNode), "the node's error is matchable in every run")
+	}
 }
